@@ -162,6 +162,17 @@ def flush (c : Cfg) (t : Nat) : State → List Nat → WalkRes
         let r := flush c t (observe (resumeOf s x) x) rest
         { r with evs := Ev.obs x (obsOf s.payload (wkOf c x) Seen.ready) :: r.evs }
 
+/-- `ret << handle`.  `ret` lists the collected handles in the order in which they are going to be resumed: collection order
+when the suspend point is dropped; when agent `t` awaits it (`Cfg.aw t`, `co_await promise(...)`), `suspend_point::await_suspend`
+pops the *last* handle for the symmetric transfer and queues the others in order — kept up to date handle by handle: the
+new handle goes to the front, the previous front to the end (`Chain.awaitOrder` of the collection order, `collect_foldl`) -/
+def collect (c : Cfg) (t : Nat) (ret : List Nat) (y : Nat) : List Nat :=
+  if c.aw t then
+    match ret with
+    | [] => [y]
+    | h :: tl => y :: (tl ++ [h])
+  else ret ++ [y]
+
 /-- `y = chain; chain = chain->_next; y->_next = nullptr;` and the field reads of `y->resume()` — all before the
 resumption itself -/
 def unlink (s : State) (t y : Nat) : State :=
@@ -187,7 +198,7 @@ def walk (c : Cfg) (t : Nat) : Nat → State → Ptr → List Nat → WalkRes
           { r with evs := Ev.obs y (obsOf s.payload (wkOf c y) Seen.ready) :: r.evs }
       else
         -- a coroutine: `ret << handle`
-        walk c t fuel (unlink s t y) (s.next y) (ret ++ [y])
+        walk c t fuel (unlink s t y) (s.next y) (collect c t ret y)
 
 /-- the rest of `value()` after its `pending()` load -/
 def pendStep (c : Cfg) (s : State) : Option (Nat × Seen) → State × List Ev
